@@ -3,6 +3,7 @@ from runner import Prop
 from vlib import Case
 import mb, cligen, pdugen
 
+QUIET_CEILING = 96 * 1024        # fixed: a sustained stream fed without harness bookkeeping (measured: about 20 KiB)
 HEAP_CEILING = 3 * 1024 * 1024   # bytes of live heap over the start of the case, above the input itself
 
 
@@ -27,7 +28,7 @@ class PROP(Prop):
             "fields, random and structured junk streams (valid headers with hostile length / count fields, truncated and over-long frames), random "
             "chunkings incl. byte-wise, sustained junk (64 KiB quick / 1 MiB thorough per surface), integer-overflow checks on (debug) and off "
             "(release).  Oracle: the result class is value / error / waiting / served-or-reported, never PANIC, never a hang or crash, and the peak "
-            "live heap of the case stays under a fixed ceiling.  non-trivial = distinct input that reaches a decoder branch beyond the first byte")
+            "live heap of the case stays under a fixed ceiling; sustained line noise of 125 KB .. 3 MB fed by a generator event keeps the library's live memory under 96 KiB.  non-trivial = distinct input that reaches a decoder branch beyond the first byte")
 
     def junk_streams(self, rng, tier, proto):
         n = 400 if tier == "quick" else 4000
@@ -91,6 +92,20 @@ class PROP(Prop):
                         R = mb.rscript(parts)
                         cs.append(Case(cligen.cli_line(proto, 1, [cligen.call_op(("RHR", 1, 1), R=R)]), {"k": "cli_sustained", "len": len(d)}, prof))
                         cs.append(Case("SRV %s %s - - -" % (proto, R), {"k": "srv_sustained", "len": len(d)}, prof))
+        # sustained input fed by a generator event (r<count>x<chunk>: nothing about it is recorded by the harness), so that the heap meter
+        # sees the library's own memory only: whatever the amount of line noise, live memory stays under a small
+        # FIXED ceiling (the receive buffer, one frame, the decoder's bounded record of skipped bytes)
+        for prof in self.profiles:
+            n = 25000 if tier == "quick" else 200000
+            noise16 = bytes([0x00, 0x80] * 8)
+            # (served traffic is not measured this way: the harness' own log of service invocations grows with it)
+            for proto, chunk, what in (("rtu", noise16, "noise"), ("rtu", bytes([0x80, 0x00, 0x6E, 0x41, 0x80]), "noise")):
+                ev = "r%dx%s" % (n, chunk.hex())
+                expanded = ",".join(["d" + chunk.hex()] * n)
+                cs.append(Case("SRV %s %s - - -" % (proto, ev), {"k": "quiet", "len": n * len(chunk), "what": what, "model_line": "SRV %s %s - - -" % (proto, expanded)}, prof))
+                if what == "noise":
+                    cs.append(Case(cligen.cli_line(proto, 1, [cligen.call_op(("RHR", 1, 1), R=ev)]),
+                                   {"k": "quiet", "len": n * len(chunk), "what": what, "model_line": cligen.cli_line(proto, 1, [cligen.call_op(("RHR", 1, 1), R=expanded)])}, prof))
         return cs
 
     def project(self, case, s):
@@ -102,6 +117,8 @@ class PROP(Prop):
             return "panic on input %s" % c.line[:80]
         if k == "HUNG":
             return "hang/crash: %s" % (c.impl or "")[:80]
+        if not c.meta.get("on_model") and c.meta.get("k") == "quiet" and c.peak > QUIET_CEILING:
+            return "peak live heap %d bytes while %d bytes of %s went through: memory grows with the amount of input" % (c.peak, c.meta["len"], c.meta["what"])
         if not c.meta.get("on_model") and c.peak > HEAP_CEILING + 64 * c.meta.get("len", 0):
             return "peak live heap %d bytes for an input of %d bytes" % (c.peak, c.meta.get("len", 0))
         return None
